@@ -10,6 +10,7 @@ import (
 	"errors"
 	"net/http"
 	"regexp"
+	"sort"
 	"strings"
 )
 
@@ -80,10 +81,11 @@ func ParseHeader(val string) (Header, error) {
 func (h *Header) Apply(hh http.Header) {
 	switch h.Action {
 	case Remove:
-		hh.Del(h.Name)
+		takeValuesFold(hh, h.Name)
 	case RemoveByPrefix:
 		removeHeadersByPrefix(hh, h.Name)
 	case Empty:
+		takeValuesFold(hh, h.Name)
 		hh.Set(h.Name, "")
 	case Add:
 		hh.Add(h.Name, *h.Value)
@@ -97,15 +99,31 @@ func (h *Header) Apply(hh http.Header) {
 		// To achieve this funcionality we utilize http.Header type being a map
 		//  and replace canonicalized key with raw name
 
-		canonicalizedName := http.CanonicalHeaderKey(h.Name)
-
-		_, ok := hh[canonicalizedName]
-
-		if ok { // key exists, replace it
-			hh[h.Name] = hh[canonicalizedName]
-			delete(hh, canonicalizedName)
+		// The field may be stored under any spelling (e.g. after an earlier rename),
+		// collect all of them so that no value is lost.
+		if vv := takeValuesFold(hh, h.Name); len(vv) > 0 { // key exists, replace it
+			hh[h.Name] = vv
 		}
 	}
+}
+
+// takeValuesFold removes all keys equal to name under case folding
+// and returns their values, keys are visited in sorted order.
+func takeValuesFold(hh http.Header, name string) []string {
+	var keys []string
+	for k := range hh {
+		if strings.EqualFold(k, name) {
+			keys = append(keys, k)
+		}
+	}
+	sort.Strings(keys)
+
+	var vv []string
+	for _, k := range keys {
+		vv = append(vv, hh[k]...)
+		delete(hh, k)
+	}
+	return vv
 }
 
 func removeHeadersByPrefix(h http.Header, prefix string) {
@@ -114,7 +132,7 @@ func removeHeadersByPrefix(h http.Header, prefix string) {
 			continue
 		}
 		if strings.EqualFold(k[0:len(prefix)], prefix) {
-			h.Del(k)
+			delete(h, k)
 		}
 	}
 }
